@@ -24,7 +24,7 @@ import gen
 from c20_vocab import vocab_category
 
 PROOF_MODULES = ["UnytProofs.C20", "UnytProofs.C20Tab0", "UnytProofs.C20Tab1", "UnytProofs.C20Tab2", "UnytProofs.C20Names",
-                 "UnytProofs.C20Syntax", "UnytProofs.C20Total", "UnytProofs.C20Roundtrip"]
+                 "UnytProofs.C20Syntax", "UnytProofs.C20Total", "UnytProofs.C20Roundtrip", "UnytProofs.C20Arith"]
 HERE = os.path.dirname(os.path.abspath(__file__))
 LIMIT = 8.0  # seconds per request on the real parser
 
@@ -206,6 +206,12 @@ def arith_py(prog):
             lines.append(f"u = u / Unit({arg!r})")
         elif op == "rdiv":
             lines.append(f"u = Unit({arg!r}) / u")
+        elif op == "mulpow":
+            p, q = arg[1].split("/")
+            lines.append(f"u = u * Unit({arg[0]!r}) ** sympy.Rational({p}, {q})")
+        elif op == "divpow":
+            p, q = arg[1].split("/")
+            lines.append(f"u = u / Unit({arg[0]!r}) ** sympy.Rational({p}, {q})")
         elif op == "powq":
             p, q = arg.split("/")
             lines.append(f"u = u ** sympy.Rational({p}, {q})")
@@ -456,6 +462,82 @@ def evaluator_faults(rng, G, n):
     while len(out) < base + n:
         out.append(rng.choice(productions(False)))
     return out
+
+
+PRIMES = [2, 3, 5, 7, 11, 13, 97, 101, 499, 503, 997, 1009, 1013, 1999, 2003, 4999, 5003, 65521, 65537, 999983]
+
+DEEP_FIXED = [
+    # exponents that only unit ARITHMETIC reaches: __pow__ rounds its operand, sympy then multiplies / adds exponents exactly
+    [["unit", "m"]] + [["sqrt", ""]] * 20,                                   # m**(1/2**20): twenty ordinary square roots
+    [["unit", "km"]] + [["powf", "0.5"]] * 25,
+    [["unit", "g"], ["mul", "cm"]] + [["sqrt", ""]] * 70,                    # beyond 2**64
+    [["unit", "m"]] + [["powq", "1/3"]] * 13,
+    [["unit", "s"]] + [["powq", "2/3"]] * 40,                                # numerator and denominator beyond 2**53
+    [["unit", "m"], ["powq", "1/1009"], ["powq", "1/1013"]],                 # a root of a root
+    [["unit", "m"], ["powq", "1/1999"], ["div", "s"], ["divpow", ["m", "1/2003"]]],   # co-prime roots: m**(4/4003997)/s
+    [["unit", "kg"], ["mulpow", ["m", "1/999983"]], ["mulpow", ["m", "1/65537"]]],
+    [["unit", "m"], ["powq", "999983/1000003"], ["powq", "65521/65537"]],    # operand beyond the bound: rounded, then exact
+    [["unit", "m"], ["powf", "0.3333333333333333"], ["powf", "0.14285714285714285"], ["powf", "0.09090909090909091"], ["powf", "0.07692307692307693"], ["powf", "0.0101010101010101"], ["powf", "0.3333333333333333"]],
+    [["unit", "J"], ["sqrt", ""], ["powq", "1/3"], ["rdiv", "W"]] + [["sqrt", ""]] * 18,
+    [["unit", "m"], ["powq", "1/1000000"]], [["unit", "m"], ["powq", "1/1000"], ["powq", "1/1001"]], [["unit", "m"], ["powq", "-7/999999"], ["powq", "3/2"]],
+]
+
+
+def deep_programs(rng, atom, n):
+    """random programs of unit operations whose exponents grow beyond any fixed bound: chains of
+    roots, roots of roots, products / quotients of roots with co-prime denominators"""
+    out = []
+    for _ in range(n):
+        prog = [["unit", atom()]]
+        for _ in range(rng.choice([2, 3, 4, 6, 10, 20, 30, 45])):
+            r = rng.random()
+            if r < 0.35:
+                prog.append(rng.choice([["sqrt", ""], ["powf", "0.5"], ["powq", "1/2"], ["powq", "1/3"], ["powf", "0.25"], ["powq", "3/2"], ["powq", "-1/2"]]))
+            elif r < 0.55:
+                a, b = rng.choice(PRIMES), rng.choice(PRIMES)
+                prog.append(["powq", f"{rng.choice([1, 1, -1, a])}/{b}"] if a != b else ["powq", f"1/{b}"])
+            elif r < 0.62:
+                prog.append(["powf", repr(rng.choice([1 / 3, 1 / 7, 2 / 3, 1 / 9, 0.1, 1e-3, 1 / 997, 0.123456789, rng.random()]))])
+            elif r < 0.78:
+                prog.append([rng.choice(["mulpow", "divpow"]), [atom() if rng.random() < 0.5 else prog[0][1], f"{rng.choice([1, -1, 2])}/{rng.choice(PRIMES)}"]])
+            elif r < 0.9:
+                prog.append([rng.choice(["mul", "div"]), atom() if rng.random() < 0.6 else prog[0][1]])
+            else:
+                prog.append(["rdiv", atom()])
+        out.append(prog)
+    return out
+
+
+def model_prog(prog, operands):
+    """wire form of a program for `c20.arith` (None when an operand is not a coefficient-free monomial or
+    the program uses operations outside the exponent model: simplify, coefficients)"""
+    def fstr(ex):
+        if ex is None or Fraction(ex[0]) != 1:
+            return None
+        return ";".join(f"{s}:{gen.rat_str(Fraction(q))}" for s, q in sorted(ex[1].items()))
+    ops = iter(operands)
+    steps, start = [], None
+    for op, arg in prog:
+        if op in ("unit", "mul", "div", "rdiv", "mulpow", "divpow"):
+            f = fstr(next(ops, None))
+            if f is None:
+                return None
+            if op == "unit":
+                start = f
+            elif op in ("mulpow", "divpow"):
+                steps.append(("M=" if op == "mulpow" else "D=") + f + "=" + gen.rat_str(Fraction(arg[1])))
+            else:
+                steps.append({"mul": "m=", "div": "d=", "rdiv": "r="}[op] + f)
+        elif op == "powq":
+            steps.append("p=" + gen.rat_str(Fraction(arg)))
+        elif op == "powf":
+            # `Rational(str(p))` of Unit.__pow__: the rational the shortest decimal text of the float denotes
+            steps.append("p=" + gen.rat_str(Fraction(repr(float(arg)))))
+        elif op == "sqrt":
+            steps.append("p=1/2")
+        else:
+            return None
+    return None if start is None else start + "\t" + "|".join(steps)
 
 
 UNICODE_PAIRS = [("µm", "um"), ("μm", "um"), ("µm", "μm"), ("µs", "us"), ("μF", "uF"), ("Ω", "ohm"), ("kΩ", "kohm"), ("Å", "angstrom"),
@@ -815,7 +897,10 @@ def run(tier, seed):
              [["unit", "lat"], ["coeff", "1/10"], ["powq", "2/1"], ["powf", "0.25"]],
              [["unit", "m"], ["powf", "2.5"]], [["unit", "kg"], ["powf", "-3.5"]], [["unit", "s"], ["powf", "0.1"]], [["unit", "km"], ["powf", "7.25"]],
              [["unit", "m"], ["powf", "0.3333333333333333"]], [["unit", "m"], ["powf", "1e-3"]], [["unit", "m"], ["powf", "12.0"]]]
-    progs = fixed + progs
+    def zatom():
+        a = rng.choice(zero_off)
+        return rng.choice(G.pre) + a if ex["lut"][a][3] and rng.random() < 0.2 else a
+    progs = fixed + DEEP_FIXED + deep_programs(rng, zatom, 250 if quick else 6000) + progs
     with cf.ThreadPoolExecutor(nproc) as tp:
         pparts = [progs[i::nproc] for i in range(nproc)]
         futs = [tp.submit(reals[i].run, [{"k": "arith", "prog": p} for p in pparts[i]]) for i in range(nproc)]
@@ -847,6 +932,12 @@ def run(tier, seed):
             chk.count("arith:float-or-irrational-coefficient(model skipped)")
             continue
         c, fac = real_expr(rep["expr"])
+        if any(q.denominator > 10**4 for q in fac.values()):
+            chk.count("arith:long-exponent")
+        mp = model_prog(prog, rep.get("operands", []))
+        if mp is not None:
+            lines.append("c20.arith\t" + mp)
+            idx.append(k)
         lines.append("c20.print\t" + gen.rat_str(c) + "\t" + ";".join(f"{s}:{gen.rat_str(q)}" for s, q in sorted(fac.items())))
         idx.append(k)
         lines.append("c20.layout\t" + gen.rat_str(c) + "\t" + ";".join(f"{s}:{gen.rat_str(q)}" for s, q in sorted(fac.items())))
@@ -860,7 +951,22 @@ def run(tier, seed):
         rep = areps[k]
         c, fac = real_expr(rep["expr"])
         want = f"ok|{gen.rat_str(c)}|" + ";".join(f"{s}:{gen.rat_str(q)}" for s, q in sorted(fac.items()))
-        if line.startswith("c20.print"):
+        if line.startswith("c20.arith"):
+            # the exponent arithmetic of __mul__/__truediv__/__pow__ (operand rounding, exact products and sums)
+            chk.count("model:c20.arith")
+            wantf = ";".join(f"{s}:{gen.rat_str(q)}" for s, q in sorted(fac.items()))
+            if m[0] != "ok" or c != 1 or m[1] != wantf:
+                chk.disagree("c20.arith", f"{progs[k]}: model expression {m[:2]} implementation {rep['expr']}")
+                continue
+            if from_cps(m[2]) != rep["str"] or from_cps(m[3]) != rep["repr"]:
+                chk.disagree("c20.arith", f"{progs[k]}: model str/repr {from_cps(m[2])!r}/{from_cps(m[3])!r} implementation {rep['str']!r}/{rep['repr']!r}")
+                continue
+            for j, which in ((4, "str"), (5, "repr")):
+                if m[j].startswith("err|unmodelled"):
+                    continue
+                if (m[j] == want) != (rep["xs_" + which] is True):
+                    chk.disagree("c20.arith", f"{progs[k]}: re-parse of {which} {rep[which]!r}: model {m[j]} (want {want}) implementation {rep['rt_' + which]}")
+        elif line.startswith("c20.print"):
             chk.count("model:c20.print")
             if m[0] != "ok" or from_cps(m[1]) != rep["str"] or from_cps(m[2]) != rep["repr"]:
                 chk.disagree("c20.print", f"{progs[k]}: model str/repr {from_cps(m[1])!r}/{from_cps(m[2])!r} implementation {rep['str']!r}/{rep['repr']!r}")
@@ -877,6 +983,30 @@ def run(tier, seed):
             chk.count("model-only:c20.layout(lexer/evaluator self-consistency, not a tie to the code)")
             if m[0] != "ok" or m[1] != want or (m[2] != want and not m[2].startswith("err|unmodelled")) or m[3] != "1":
                 chk.disagree("c20.layout", f"{progs[k]}: layout round trip broken in the model: {m} (want {want})")
+
+    # ------------------------------------------------------------------ limit_denominator: the model's loop against CPython's / sympy's
+    import sympy
+
+    ld_cases = [(10**6, Fraction(1, 1048576)), (10**6, Fraction(4, 4003997)), (10**6, Fraction(1, 10**6)), (10**6, Fraction(1, 10**6 + 1)), (1, Fraction(1, 2)),
+                (1, Fraction(3, 2)), (1, Fraction(-1, 2)), (10, Fraction("3.141592653589793")), (10**6, Fraction(repr(1 / 3)))]
+    for _ in range(400 if quick else 8000):
+        k = rng.choice([3, 7, 12, 17, 25])
+        x = Fraction(rng.randint(-10**k, 10**k), rng.randint(1, 10**k))
+        if rng.random() < 0.25:
+            x = Fraction(repr(rng.random() * rng.choice([1, 10, 0.001])))
+        ld_cases.append((rng.choice([1, 2, 3, 10, 1000, 10**6, 10**6, 10**6, 10**9]), x))
+    try:
+        lm = core.Model("drv_c20").ask([f"c20.limden\t{B}\t{gen.rat_str(x)}" for B, x in ld_cases])
+    except Exception as e:  # noqa: BLE001
+        lm = []
+        chk.disagree("driver", repr(e))
+    for (B, x), m in zip(ld_cases, lm):
+        chk.case(("limden", B, str(x)))
+        chk.count("model:c20.limden")
+        w = sympy.Rational(x.numerator, x.denominator).limit_denominator(B)
+        w = Fraction(int(w.p), int(w.q))
+        if m[0] != "ok" or Fraction(m[1]) != w or w != x.limit_denominator(B):
+            chk.disagree("c20.limden", f"limit_denominator({x}, {B}): model {m}, sympy {w}, fractions {x.limit_denominator(B)}")
 
     # ------------------------------------------------------------------ equivalent spellings
     spell_cases = []
